@@ -146,7 +146,8 @@ func fuzzOrigin(r *vlib.Rand) string {
 	sep := vlib.Pick(r, "://", "://", "://", ":", ":/", "//", "", ":///")
 	h := vlib.Pick(r, testHost, host, host+":9", host+".", strings.ToUpper(host)+":817", "evil.example", "evil.example:817", "localhost", "localhost:817", "127.0.0.1", "127.0.0.1:817",
 		"[::1]", "[::1]:817", "0x7f.1", "evil@"+testHost, testHost+"@evil.example", testHost+".evil.example", "evil.example/"+testHost, "evil.example?"+testHost, "evil.example#"+testHost,
-		"", "xn--80ak6aa92e.com", "a b", "%61pi.verif.test:817", randPrintable(r, r.Range(1, 20)), "abcdefghijklmnopabcdefghijklmnop")
+		"", "xn--80ak6aa92e.com", "a b", "localhost.attacker.example", "localhost.attacker.example:8443", "localhostess", "127.0.0.1.attacker.example:8443", "127.0.0.10", "127.0.0.1"+randKey(r, r.Range(1, 5)), "localhost"+randKey(r, r.Range(1, 5)),
+		randKey(r, r.Range(1, 4))+"localhost", randKey(r, 3)+".127.0.0.1", "localhost."+randKey(r, 6)+".example:"+fmt.Sprint(r.Range(1, 65535)), "%61pi.verif.test:817", randPrintable(r, r.Range(1, 20)), "abcdefghijklmnopabcdefghijklmnop")
 	suffix := vlib.Pick(r, "", "", "", "/", "/path", "?q=1", "#f", ":", ":x", " ", ", http://"+testHost)
 	switch r.Intn(10) {
 	case 0:
